@@ -233,9 +233,9 @@ From Texel.Gen Require Import CleanupRingGen.
 (** ** tie G2 (loops): cleanupNewRing REGENERATED from snap.go on this run (gen/CleanupRingGen.v) is the model's, for
     every ring: the closing vertex dropped before spike removal, the loop that drops it again afterwards (fix ffc0f16;
     the model's structural [trimClosing], the generated loop on fuel len + 1), both exits for fewer than 3 vertices.
-    It calls the REGENERATED kmpDeduplicate and asPointOrLine.  [splitRing] is the MODEL's function, with the
-    arguments (hitMultiple, ringIdx) read as the model's predicate [isMulti]: splitRing is NOT tied to the source
-    (its ordered-map stack walk and Go map of complete rings are hand-modelled, held by the correspondence only). *)
+    It calls the REGENERATED kmpDeduplicate, asPointOrLine and splitRing (gen_splitRing of gen/SplitWalkGen.v, tied to
+    the model by C06_source_tie_split_ring at the end of this file), the arguments (hitMultiple, ringIdx) of splitRing
+    read as the model's predicate [isMulti]. *)
 Theorem C06_source_tie_cleanup_new_ring : forall newRing isOuter isMulti,
   gen_cleanupNewRing newRing isOuter isMulti = cleanupNewRing newRing isOuter isMulti.
 Proof. exact gen_cleanupNewRing_spec. Qed.
@@ -385,3 +385,233 @@ Proof.
       destruct HL as [<- | [<- | [<- | []]]]; vm_compute; reflexivity. }
   vm_compute. repeat split; reflexivity.
 Qed.
+
+From Texel Require Import Snap.MatchSupport Snap.ProofsGenMatch.
+From Texel.Gen Require Import MatchGen.
+
+(** ** tie G2 (loops): matchInnersToPolygons REGENERATED from snap.go on this run (gen/MatchGen.v, translator/match.go)
+    is the model's, for EVERY list of polygons, every list of inner rings and every outcome (value, Err
+    IndexOutOfRange for a polygon without rings / an empty outer ring).  Translated from the AST: the early return,
+    (repair of F16) the map [cancelledBy := make(map[int]int, lenPolygons)] filled by [for polyI := range polygons]
+    around [for innerI := range innerRings] with [cancelledBy[polyI] = innerI; break] at the first inner ring for which
+    [ringsAreEqual(polygons[polyI][0], innerRings[innerI], true, false)], and in the counting loop
+    [if twinI, cancelled := cancelledBy[polyI]; cancelled && twinI != innerI { continue }];
+    both [var] declarations, the labelled loop [matchInners] over the inner rings with their indices
+    ([for innerI, innerRing := range innerRings]), the loop over a ring's vertices,
+    [for polyI := range polygons], the per-polygon counting [containsPerPolyI.Set(polyI, containsPerPolyI.Value(polyI)+1)],
+    [matchCount == 1] with [continue matchInners] out of the vertex loop, [containsPerPolyI.Len() == 0] with
+    [continue], the lazily computed [polyISortedByOuterAreaDesc] ([== nil]: an [option]), both in-place updates
+    [polygons[k] = append(polygons[k], innerRing)] and the final loop over the inners turned outers.
+    [polygons[k] = ...] is [idx] + [setidx], i.e. Err IndexOutOfRange where Go panics, while the model's
+    [append_inner] ignores an index out of range: the proof shows k is always a valid index (a key of the counts, or
+    0 with at least one polygon), so the two agree and that panic cannot happen.  [hasInners] is only logged.
+    NOT translated, kept as the MODEL's function after the translator checked the AST for the exact callee, import
+    path and declared signature (trusted; listed at the top of gen/MatchGen.v and Snap/ProofsGenMatch.v):
+    - [ringContains], [sortPolyIdxsByOuterAreaDesc] (float predicates, go-sortedmap; the latter's result is nil
+      exactly when empty: [nilable_of_keys]);
+    - [mapslicehelp.FindLastKeyWithMaxValue] = [maxWinners], [mapslicehelp.LastMatch] = [lastMatch],
+      [mapslicehelp.OrderedMapKeys] = [map fst], [mapslicehelp.ReverseClone] = [rev];
+    - go-ordered-map: [orderedmap.New[int, uint](orderedmap.WithCapacity[int, uint](n))] = [[]], [Set] = [om_set],
+      [Value] = [om_get], [Len] = [om_len] (Snap/MatchSupport.v; [Set(k, Value(k)+1)] is PROVED to be [om_incr]);
+    - [for i := range s] over [go_indices s]; [for i, x := range s] over [go_enum s]; [log.Printf] = nothing;
+      [int]/[uint] exact Z; slices as values;
+    - (repair of F16) [ringsAreEqual] = the model's (signature checked; tied on its own below:
+      [C06_source_tie_ring_helpers]); the Go [map[int]int] = [imap] of Snap/MatchSupport.v: [make] = [[]], [m[k] = v] =
+      [im_set], [v, ok := m[k]] = [im_get] / [im_has] (the filling loops are PROVED to compute the model's [cancelledBy],
+      the comma-ok test to be the model's [skipCancelled]). *)
+Theorem C06_source_tie_match_inners : forall polys inners hasInners,
+  gen_matchInnersToPolygons polys inners hasInners = matchInnersToPolygons polys inners.
+Proof. exact gen_matchInnersToPolygons_spec. Qed.
+Print Assumptions C06_source_tie_match_inners.
+
+(** the regenerated code runs: two nested shells; one hole inside both (no single winner: it goes to the smaller
+    shell through the lazily sorted indices), one hole inside the big shell only (single winner at its first vertex:
+    [continue matchInners]), one "hole" outside both (turned into an outer, reversed); a polygon without rings makes
+    the scan fail as the Go code panics; without polygons every inner ring is turned; (F16) the polygon whose outer
+    ring [P1] is equal to the inner ring [T] (same points, opposite direction, another starting point) is cancelled: it
+    takes [T] only, and the hole [A] inside it goes to the shell around it (it went to [P1] before the repair) *)
+Example C06_source_tie_match_inners_example :
+  let P0 := [(0,0); (100,0); (100,100); (0,100)] in
+  let P1 := [(10,10); (50,10); (50,50); (10,50)] in
+  let A := [(20,20); (20,30); (30,30); (30,20)] in
+  let B := [(60,60); (60,70); (70,70); (70,60)] in
+  let C := [(200,200); (200,210); (210,210)] in
+  let T := [(50,50); (50,10); (10,10); (10,50)] in
+  gen_matchInnersToPolygons [[P0]; [P1]] [A; B; C] true = Ok [[P0; B]; [P1; A]; [rev C]] /\
+  gen_matchInnersToPolygons [[P0]; [P1]] [A; T; B] true = Ok [[P0; A; B]; [P1; T]] /\
+  gen_matchInnersToPolygons [[P1]] [T; A] true = Ok [[P1; T]; [rev A]] /\
+  gen_matchInnersToPolygons [[P0]; []] [A] true = Err IndexOutOfRange /\
+  gen_matchInnersToPolygons [] [A; B] false = Ok [[rev A]; [rev B]] /\
+  gen_matchInnersToPolygons [[P0]; [P1]] [] false = Ok [[P0]; [P1]].
+Proof. vm_compute. repeat split; reflexivity. Qed.
+
+From Texel Require Import Prelude.GoLoop Prelude.GoLib Snap.ProofsGenRingHelpers.
+From Texel.Gen Require Import RingHelpersGen.
+
+(** ** tie G2 (loops): the small ring helpers REGENERATED from source on this run (gen/RingHelpersGen.v) are the model's
+    on ALL inputs, every outcome included ([Err IndexOutOfRange] of ringsAreEqual / ringContains on an empty ring).
+    REGENERATED from snap.go: ringsAreEqual (its [for k] loop on fuel len + 1, both comparisons with their short-circuit
+    operands, Go's truncating [%] as [go_rem] — equal to the model's [mod] because the operands are non-negative),
+    ringContains (the wrap-around edge, the [for i] loop with its early return, the even-odd flip), outersToPolygons,
+    reverseWindingOrderIfConfigured (two nested [for i := range] loops), sortPolyIdxsByOuterAreaDesc (the [range] loop
+    and its if/else); from mapslicehelp.go, instantiated at the types of their call sites in snap.go:
+    FindLastKeyWithMaxValue (named results, [continue]), LastMatch (the downward [for] loop), DeleteFromSliceByIndex,
+    OrderedMapKeys, CountVals, LastElement, ReverseClone.  In the model these are [ringsAreEqual], [ringContains],
+    [map (fun o => [o])] and [map (map rev)] of snapLevel, [sortPolyIdxsByOuterAreaDesc], [maxWinners] (key and number of
+    winners of the three results [maxWinners3]), [lastMatch], [filter_idx], [map fst], the counts [nO] / [nI] of
+    dedupeStep, [last_opt], [rev].
+    STAYS MODELLED (the translator checks the AST for the exact call shape and then emits the model's function; trusted):
+    geomhelp.RayIntersect (float code) = [rayIntersect]; geomhelp.Shoelace and the literal 0.0 (float code) = [absArea2], 0;
+    go-sortedmap New(i > j) / Insert(range index, v) / Keys = [] / [area_place] / [map fst]; go-ordered-map = the
+    insertion-ordered association list walked by Newest..Prev ([rev]) or Oldest..Next, Key / Value / Len = fst / snd / zlen;
+    a map[int]X read only by [_, ok := m[k]] = the list of its keys ([mem_Z]); slices.Index / slices.Contains =
+    [slices_index pt_eqb] / [mem_Z]; slices.Reverse(p[i][j]) in place = the element replaced by its reverse (the rings do
+    not share memory); config.ReverseWindingOrder = the record field; [&s[i]] = [Some s[i]]; [s == nil] = [is_nil s]
+    (nil and empty slices are both []); [int] and [uint] are exact Z, [2]float64 is [pt].
+    NOT regenerated: the callers dedupeInnersOuters, matchInnersToPolygons, addPointsAndSnap (hand-modelled, held by
+    the correspondence). *)
+Theorem C06_source_tie_ring_helpers :
+  (forall ringI ringJ iIsOuter jIsOuter,
+     gen_ringsAreEqual ringI ringJ iIsOuter jIsOuter = ringsAreEqual ringI ringJ iIsOuter jIsOuter) /\
+  (forall r p, gen_ringContains r p = ringContains r p) /\
+  (forall m, gen_FindLastKeyWithMaxValue m = Ok (maxWinners3 m) /\
+             maxWinners m = (fst (fst (maxWinners3 m)), snd (maxWinners3 m))) /\
+  (forall haystack needle, gen_LastMatch haystack needle = Ok (lastMatch haystack needle)) /\
+  (forall (s : list ring) del off, gen_DeleteFromSliceByIndex s del off = Ok (filter_idx s off del)) /\
+  (forall polys, gen_sortPolyIdxsByOuterAreaDesc polys = Ok (sortPolyIdxsByOuterAreaDesc polys)) /\
+  (forall outs : list ring, gen_outersToPolygons outs = Ok (map (fun o => [o]) outs)) /\
+  (forall ps cfg, gen_reverseWindingOrderIfConfigured ps cfg
+                  = Ok (if reverseWindingOrder cfg then map (map (@rev pt)) ps else ps)) /\
+  (forall m : list (Z * Z), gen_OrderedMapKeys m = Ok (map fst m)) /\
+  (forall (m : list (Z * bool)) v, gen_CountVals m v = Ok (zlen (filter (fun p => Bool.eqb (snd p) v) m))) /\
+  (forall m : list (Z * bool), gen_CountVals m true = Ok (zlen (filter (fun e => snd e) m)) /\
+                               gen_CountVals m false = Ok (zlen (filter (fun e => negb (snd e)) m))) /\
+  (forall l : list pt, gen_LastElement l = Ok (last_opt l)) /\
+  (forall s : list pt, gen_ReverseClone s = Ok (rev s)).
+Proof.
+  split; [exact gen_ringsAreEqual_spec |]. split; [exact gen_ringContains_spec |].
+  split; [exact (fun m => conj (gen_FindLastKeyWithMaxValue_spec m) (maxWinners_of_3 m)) |].
+  split; [exact gen_LastMatch_spec |]. split; [exact gen_DeleteFromSliceByIndex_spec |].
+  split; [exact gen_sortPolyIdxsByOuterAreaDesc_spec |]. split; [exact gen_outersToPolygons_spec |].
+  split; [exact gen_reverseWindingOrderIfConfigured_spec |]. split; [exact gen_OrderedMapKeys_spec |].
+  split; [exact gen_CountVals_spec |]. split; [exact gen_CountVals_outers_inners |].
+  split; [exact gen_LastElement_spec | exact gen_ReverseClone_spec].
+Qed.
+Print Assumptions C06_source_tie_ring_helpers.
+
+(** the regenerated code runs: a ring against its rotation and against its reversed rotation (outer vs inner), an empty
+    ring (Go: index out of range), a point inside / on the boundary of / outside a square, the last of two maximal
+    counts, areas 8, 2, 0, 32 sorted descending, deletion by shifted index, both reversals *)
+Example C06_source_tie_ring_helpers_example :
+  let sq := [(0,0); (4,0); (4,4); (0,4)] in
+  gen_ringsAreEqual sq [(4,4); (0,4); (0,0); (4,0)] true true = Ok true /\
+  gen_ringsAreEqual sq [(4,4); (4,0); (0,0); (0,4)] true false = Ok true /\
+  gen_ringsAreEqual sq [(4,4); (4,0); (0,0); (0,4)] true true = Ok false /\
+  gen_ringsAreEqual [] [] true false = Err IndexOutOfRange /\
+  gen_ringContains sq (2,1) = Ok (true, false) /\ gen_ringContains sq (4,2) = Ok (true, true) /\
+  gen_ringContains sq (5,5) = Ok (false, false) /\ gen_ringContains [] (0,0) = Err IndexOutOfRange /\
+  gen_FindLastKeyWithMaxValue [(3,1); (0,2); (5,2); (1,1)] = Ok (5, 2, 2) /\
+  gen_LastMatch [4; 2; 7; 9] [7; 4] = Ok 7 /\ gen_LastMatch [4; 2] [9] = Ok 0 /\
+  gen_DeleteFromSliceByIndex [[(1,1)]; [(2,2)]; [(3,3)]] [4; 0] 3 = Ok [[(1,1)]; [(3,3)]] /\
+  gen_sortPolyIdxsByOuterAreaDesc [[[(0,0); (2,0); (2,2); (0,2)]]; [[(0,0); (1,0); (1,1); (0,1)]]; []; [sq]] = Ok [3; 0; 1; 2] /\
+  gen_outersToPolygons [sq; [(1,1)]] = Ok [[sq]; [[(1,1)]]] /\
+  gen_reverseWindingOrderIfConfigured [[sq; [(1,1); (2,2)]]; [[(7,7); (8,8); (9,9)]]] (mkConfig false false true)
+    = Ok [[[(0,4); (4,4); (4,0); (0,0)]; [(2,2); (1,1)]]; [[(9,9); (8,8); (7,7)]]] /\
+  gen_OrderedMapKeys [(3,1); (0,2); (5,2)] = Ok [3; 0; 5] /\
+  gen_CountVals [(0, true); (1, false); (2, true)] true = Ok 2 /\
+  gen_LastElement sq = Ok (Some (0,4)) /\ gen_LastElement [] = Ok None /\
+  gen_ReverseClone sq = Ok [(0,4); (4,4); (4,0); (0,0)].
+Proof. vm_compute. repeat split; reflexivity. Qed.
+
+From Texel Require Import Prelude.GoMap Snap.ProofsGenDedupe.
+From Texel.Gen Require Import DedupeGen.
+
+(** ** tie G2 (loops): dedupeInnersOuters (snap.go) together with mapslicehelp.CountVals and
+    mapslicehelp.DeleteFromSliceByIndex, REGENERATED from source on this run (gen/DedupeGen.v), is the model's
+    [dedupeInnersOuters] ([dedupeStep] / [filter_idx], Snap/Model.v): equal results for every two lists of rings, [Err]
+    outcomes included (an empty ring makes ringsAreEqual panic).  Regenerated: both nested 3-clause [for] loops with
+    their [continue]s (Fixpoints on fuel [S lenAll], shown never to run out), the choice of ringI / ringJ, the counts,
+    [difference], [numOutersToDelete] / [numInnersToDelete], the marking loop, the early [return outers, inners] when
+    nothing is deleted, the two filtered results; CountVals at K = int, V = bool and DeleteFromSliceByIndex at
+    V = [][2]float64, X = bool, statement by statement.
+    Stays MODELLED (checked on the AST for the exact call shape, Prelude/GoMap.v): the builtin [map[int]IsOuter] used as
+    a set ([make], [m[k] = v], [_, ok := m[k]], [len(m)] = [[]] / [imap_set] / [imap_has] / [imap_len]); go-ordered-map
+    ([New] + [WithInitialData], [Set], [Len], iteration [Oldest()] .. [Next()] = [omap_set] / [omap_len] / the entries
+    in insertion order); [int(math.Abs(float64(a) - float64(b)))] = [Z.abs (a - b)]; [ringsAreEqual] = the model's
+    function (tied separately); [int] = Z, [[2]float64] = [pt]. *)
+Theorem C06_source_tie_dedupe_inners_outers :
+  (forall outs ins, gen_dedupeInnersOuters outs ins = dedupeInnersOuters outs ins) /\
+  (forall (m : omap) v, gen_CountVals m v = Ok (zlen (filter (fun e => Bool.eqb (snd e) v) m))) /\
+  (forall (s : list ring) (gd : imap) (md : list Z) off, (forall k, imap_has gd k = mem_Z k md) ->
+     gen_DeleteFromSliceByIndex s gd off = Ok (filter_idx s off md)).
+Proof.
+  split; [exact gen_dedupeInnersOuters_spec |].
+  split; [exact gen_CountVals_spec | exact gen_DeleteFromSliceByIndex_spec].
+Qed.
+Print Assumptions C06_source_tie_dedupe_inners_outers.
+
+(** the regenerated code runs.  Three equal outers (one rotated) and one equal inner (reversed): 3 and 1 differ, so
+    min(3, 1) = 1 of each is deleted, the first outer and the inner; the square and its reversal as inner are 1 and 1:
+    all but one of each = nothing is deleted.  Two equal outers and two equal inners: one of each goes.  Two equal
+    outers without an inner: min(2, 0) = 0 are deleted (the early return of the inputs).  An empty ring next to an
+    empty ring is the Go panic of ringsAreEqual. *)
+Example C06_source_tie_dedupe_inners_outers_example :
+  let a : ring := [(0,0); (4,0); (4,4)] in
+  let a' : ring := [(4,0); (4,4); (0,0)] in
+  let ar : ring := [(4,4); (4,0); (0,0)] in
+  let b : ring := [(9,9); (12,9); (12,12); (9,12)] in
+  gen_dedupeInnersOuters [a; b; a'; a] [ar; rev b] = Ok ([b; a'; a], [rev b]) /\
+  gen_dedupeInnersOuters [a; a'; b] [ar; rev a'; b] = Ok ([a'; b], [rev a'; b]) /\
+  gen_dedupeInnersOuters [a; a'] [b] = Ok ([a; a'], [b]) /\
+  gen_dedupeInnersOuters [[]; a] [[]] = Err IndexOutOfRange /\
+  gen_CountVals [(0, true); (2, true); (3, true); (4, false)] true = Ok 3 /\
+  gen_DeleteFromSliceByIndex [a; b; a'] [(3, true); (1, false)] 1 = Ok [b].
+Proof. vm_compute. repeat split; reflexivity. Qed.
+
+From Texel Require Import Snap.ProofsGenSplitWalk.
+From Texel.Gen Require Import SplitWalkGen.
+
+(** ** tie G2 for the WHOLE of splitRing (completes C06_source_tie_split_ring_partial above): the function REGENERATED
+    from snap.go on this run — its first part, the walk over the ring (gen/SplitWalkGen.v, translator/splitwalk.go),
+    followed by the regenerated last part gen_splitRing_tail (gen/SplitTailGen.v) — is the model's [splitRing], for
+    EVERY ring, [isOuter], predicate [isMulti] and every outcome (value, Err IndexOutOfRange for an empty ring,
+    Err PartialRingsOnStack).
+    REGENERATED from the AST: every statement and all control flow of the walk (the range loop over checkRing with its
+    index and [continue]; which key of the stack is set / deleted and which key of completeRings is assigned, when and
+    with what; [checkRing := append(ring, ring[0])]; the closing tests [tempRing[0] == tempRing[len(tempRing)-1]] and
+    the slices [tempRing[:len(tempRing)-1]], [tempRing[1:]] as [idx] / [slice] = Go's run-time panics; the inner loop
+    [for r := stack.Newest().Prev(); r != nil; r = r.Prev()] with both [break]s; the nested range loop deleting the
+    prepended partial rings; [partialRingIdx++]; the final [stack.Len() > 0] test), each range-loop body being a
+    definition gen_splitRing_range<N>.
+    STAYS MODELLED (trusted micro-models, used only after the translator has checked the AST for the exact call shape;
+    listed at the top of gen/SplitWalkGen.v and Snap/ProofsGenSplitWalk.v):
+    - the ordered map (github.com/wk8/go-ordered-map/v2): [orderedmap.New[int, [][2]float64]()] = the empty [stack];
+      [Set] / [Delete] / [Value] / [Len] / [Get] = [st_set] / [st_del] / [st_value] / [zlen] / [st_get]; the
+      [Newest().Prev()] iteration = the entries older than the newest one, newer first (a nil [Newest()] is written
+      Err IndexOutOfRange; the theorem shows it does not arise), the body changing the map only right before [break];
+    - the Go map completeRings = its entries in increasing key order, [C[k] = v] = [insert_sorted k v C];
+    - [verticesHitMultiple(hitMultiple, ringIdx)] + map lookup = the model's predicate parameter [isMulti];
+    - [panicPartialRingsRemainingOnStack] = Err PartialRingsOnStack; [append] / [make(.., 0, n)] as values: that
+      [append] writes into spare capacity shared between stack values (slice ALIASING) is outside the translation —
+      the model is immutable; it is held by the run-time correspondence only;
+    - in the last part: [windingOrderIsCorrect], [maps.Keys] + [sort.Ints], [slices.Reverse] (see the partial tie).
+    The body of verticesHitMultiple itself is not tied (any set of vertices is covered: [isMulti] is universally
+    quantified).  gen_cleanupNewRing (C06_source_tie_cleanup_new_ring) calls this gen_splitRing. *)
+Theorem C06_source_tie_split_ring : forall r isOuter isMulti,
+  gen_splitRing r isOuter isMulti = splitRing r isOuter isMulti.
+Proof. exact gen_splitRing_spec. Qed.
+Print Assumptions C06_source_tie_split_ring.
+
+(** the regenerated code runs: a figure of eight through the doubly hit vertex (2,2) is split into its two loops (in
+    the order of their keys); walked from another start the loop that closes first gets the smaller key; a ring with a
+    spike to a doubly hit vertex gives a line; an empty ring is the index panic *)
+Example C06_source_tie_split_ring_example :
+  let multi (l : list pt) (p : pt) := mem_pt p l in
+  gen_splitRing [(0,0); (2,0); (2,2); (4,2); (4,4); (2,4); (2,2); (0,2)] true (multi [(2,2)])
+    = Ok (mkSets [[(0,0); (2,0); (2,2); (0,2)]; [(2,2); (4,2); (4,4); (2,4)]] [] []) /\
+  gen_splitRing [(4,2); (4,4); (2,4); (2,2); (0,2); (0,0); (2,0); (2,2)] false (multi [(2,2)])
+    = Ok (mkSets [] [[(2,2); (2,4); (4,4); (4,2)]; [(2,0); (0,0); (0,2); (2,2)]] []) /\
+  gen_splitRing [(0,0); (4,0); (4,4); (6,6); (4,4); (0,4)] true (multi [(4,4)])
+    = Ok (mkSets [[(0,0); (4,0); (4,4); (0,4)]] [] [[(4,4); (6,6)]]) /\
+  gen_splitRing [] true (multi []) = Err IndexOutOfRange.
+Proof. vm_compute. repeat split; reflexivity. Qed.
